@@ -203,6 +203,13 @@ func c38BuildKeys() (*c38Keys, error) {
 		k := &c38Keys{signers: map[[3]int]*signer{}, bytes: map[[3]int][]byte{}}
 		for w := 0; w < 4; w++ {
 			x, y := tecdsa.Curve.ScalarBaseMult(big.NewInt(int64(1000 + 17*w)).Bytes())
+			if w == 1 {
+				// wallet 1 is the negation of wallet 0: a different wallet
+				// whose public key shares the x coordinate (hostile input for
+				// anything that names a wallet by less than its whole key)
+				x = new(big.Int).Set(k.walletKeys[0].X)
+				y = new(big.Int).Sub(tecdsa.Curve.Params().P, k.walletKeys[0].Y)
+			}
 			k.walletKeys = append(k.walletKeys, &ecdsa.PublicKey{Curve: tecdsa.Curve, X: x, Y: y})
 		}
 		for w := 0; w < 3; w++ {
